@@ -1405,6 +1405,7 @@ def main():
     from vf.sandbox import run_extra as _run_extra
     from vf.common import seed as _seed, tier as _tier
     _run_extra(run, "vf.history:h_traj_system_vs_script", [{"seed": _seed(), "idx": _i} for _i in range(640 if _tier() == "thorough" else 64)], cpu_budget=60, kind_prefix="history: ")
+    _run_extra(run, "vf.history:h_traj_names", [{"seed": _seed(), "idx": _i} for _i in range(480 if _tier() == "thorough" else 48)], cpu_budget=60, kind_prefix="history: ")
     return run.finish()
 
 
